@@ -1329,7 +1329,11 @@ fn fast_class(spec: &Spec, is_max: bool, obj: usize, fails: &[Fail]) -> &'static
                         }
                     }
                     let inconsistent = lo > hi;
-                    if (is_max && lower) || (!is_max && upper) || matches!(p, SPost::Cmp(Rel::Eq, ..)) || inconsistent { "fast-path-ignores-opposite-bounds" } else { "-" }
+                    // (`fast-path-ignores-opposite-bounds` is repaired: the metadata stage checks the
+                    // candidate against the bounds of both sides and a failed propagation run makes both
+                    // routers decline; the matcher is gone, a recurrence is an unlisted failure)
+                    let _ = (lower, upper, inconsistent);
+                    "-"
                 }
                 SPost::Cmp(..) => "fast-path-unextracted-bound-shape",
                 // the posted `equals(x, const)` is a shape the router's bound extraction ignores
@@ -2103,7 +2107,8 @@ fn suite_witness(out: &mut Out) {
         ("opposite", 6, vec![f(0.0, 10.0)], vec![SPost::Cmp(Rel::Le, v(0), c(3.0)), SPost::Cmp(Rel::Ge, v(0), c(5.0))], vec![(true, 0)]),
         ("shape", 6, vec![f(0.0, 10.0)], vec![SPost::Cmp(Rel::Eq, c(4.0), v(0))], vec![(true, 0)]),
         ("wrong-objective", 6, vec![SVar::I(0, 3), f(0.0, 10.0)], vec![], vec![(true, 0)]),
-        ("reroute", 6, vec![f(0.0, 10.0)], vec![SPost::Cmp(Rel::Le, v(0), c(-5.0))], vec![(true, 0)]),
+        ("reroute-repaired", 6, vec![f(0.0, 10.0)], vec![SPost::Cmp(Rel::Le, v(0), c(-5.0))], vec![(true, 0)]),
+        ("reroute", 6, vec![f(0.0, 10.0)], vec![SPost::Cmp(Rel::Le, v(0), c(20.0)), SPost::PLin(false, vec![2.0], vec![0], -8.0)], vec![(true, 0)]),
         ("guarded", 6, vec![f(0.0, 10.0), SVar::I(2, 3)], vec![SPost::Cmp(Rel::Le, v(0), c(4.5)), SPost::Cmp(Rel::Le, c(1.0), v(0))], vec![(true, 0), (false, 0)]),
         ("lp-vertex", 2, vec![f(0.0, 10.0), SVar::I(0, 3)], vec![SPost::Lin(false, vec![2.0], vec![1], 3.0), SPost::Lin(false, vec![1.0, -1.0], vec![0, 1], 0.0)], vec![(true, 0)]),
         ("lp-vertex-float", 2, vec![f(0.0, 4.0), f(0.0, 4.0)], vec![SPost::Lin(false, vec![1.0, 1.0], vec![0, 1], 4.0), SPost::Cmp(Rel::Ge, v(1), c(1.0))], vec![(true, 0)]),
